@@ -42,9 +42,12 @@ META = {'design_ref': 'DESIGN.md section 7 / C08',
                'be performed now => reported time <= now; both under the premise that a CONNACK deadline is set while PendingConnack), their run-level forms '
                'C08_reported_time_is_min_run / C08_no_lost_wakeup_run WITHOUT that premise (it is a conjunct of the engine well-formedness invariant, '
                'EngineProofs/WF*.v + SvcTimeWF.v: they hold in every state reachable by any event history, for components satisfying comps_ok) and '
-               'C08_instance_reported_time_is_min / C08_instance_no_lost_wakeup (the same for the concrete engine of Engine/Instance.v, only ok_cfg / '
-               'ok_event left), C08_timers_honoured (the reported time is not later than any armed ping / ping-timeout / '
-               'ack-timeout / CONNACK deadline). The liveness half (bounded completion against a responsive broker) is NOT proved: it is explored by the '
-               'lock-step histories whose simulated driver services only at reported times, with monitors mon_c08_wakeup and mon_c08_spin — partial.',
+               'C08_instance_reported_time_is_min / C08_instance_no_lost_wakeup (the same for the concrete engine of Engine/Instance.v, only ok_cfg / ok_event '
+               'left), C08_timers_honoured (the reported time is not later than any armed ping / ping-timeout / ack-timeout / CONNACK deadline). The liveness '
+               'half (bounded completion against a responsive broker) is NOT proved: it is explored by the lock-step histories whose simulated driver services '
+               'only at reported times, with monitors mon_c08_wakeup and mon_c08_spin — partial. Monitors on the implementation trace: mon_c08_wakeup (work '
+               'that can be sent now -> service time now), mon_c08_spin (no service-me-now that changes nothing), mon_c08_timers (the reported time is never '
+               'later than the CONNACK deadline, the PINGRESP deadline, the next ping time, or w + T of any incomplete operation completely written at w with '
+               'ack timeout T).',
  'technique': 'machine-checked proof in Coq over the engine model + lock-step correspondence of the extracted model with the implementation + extracted '
               'monitors on the implementation trace'}
